@@ -147,6 +147,10 @@ pub enum Surgery {
     /// nesting is within the library's limit while the number of nested applications is
     /// `records ^ depth`.
     InstallContextFanout { glyph: u16, records: u16, depth: u8, variant: u64 },
+    /// Add `count` private tables (tags `t000`, `t001`, ... in base 36) of `len` bytes that share
+    /// one buffer: a well-formed font with an unusually long table directory. Every corpus font
+    /// has fewer than 32 tables; the sfnt header fields derived from the table count are 16-bit.
+    ManyTables { count: u16, len: u16 },
     /// Replace GSUB (or GPOS) by a table whose lists alias: `scripts` ScriptRecords that all name
     /// ONE ScriptTable, whose `langsys` LangSysRecords (and the default) all name ONE LangSys with
     /// `features` feature indices; `frecs` FeatureRecords that all name ONE FeatureTable with
